@@ -74,7 +74,8 @@ def gen_target(rng, ctl=False):
 
 
 HNAMES = [b"X-A", b"x-a", b"X-a", b"Accept", b"accept", b"Cookie", b"X.Dot", b"X~T", b"User-Agent", b"Referer",
-          b"X-Long-Header-Name-With-Many-Parts", b"Host", b"X_Under", b"If-None-Match", b"Content-Type", b"X-1"]
+          b"X-Long-Header-Name-With-Many-Parts", b"Host", b"X_Under", b"If-None-Match", b"Content-Type", b"X-1",
+          b"X-Under", b"x_under", b"X_A"]
 
 
 def gen_headers(rng):
@@ -112,9 +113,30 @@ def make_case(rng):
                 script_hdr = pre
         except UnicodeDecodeError:
             pass
+    elif k < 0.21 and target.startswith(b"/"):
+        # SCRIPT_NAME that occurs in the path, but not at its start
+        path = target.split(b"?")[0].split(b"#")[0]
+        starts = [i for i, c in enumerate(path) if c == 0x2f and i > 0]
+        if starts:
+            i = rng.choice(starts)
+            ends = [j for j in range(i + 2, len(path) + 1) if j == len(path) or path[j] == 0x2f]
+            if ends:
+                pre = path[i:rng.choice(ends)]
+                try:
+                    pre.decode("ascii")
+                    if len(pre) > 1 and not path.startswith(pre) and b"%" not in pre:
+                        if k < 0.18:
+                            script_env = pre.decode("ascii")
+                        else:
+                            script_hdr = pre
+                except UnicodeDecodeError:
+                    pass
+    # who is talking: a SCRIPT_NAME header counts only from a trusted peer; the same worker serves both kinds of peer
+    hdr_from_untrusted = script_hdr is not None and rng.random() < 0.3
     return {"target": target.hex(), "method": method, "version": version,
             "headers": [[n.hex(), v.hex()] for n, v in hdrs], "body": None if body is None else body.hex(),
             "script_env": script_env, "script_hdr": None if script_hdr is None else script_hdr.hex(),
+            "hdr_from_untrusted": hdr_from_untrusted, "header_map": "dangerous" if rng.random() < 0.2 else "drop",
             "kind": rng.choice(["sync", "gthread", "async"]), "ctl": ctl}
 
 
@@ -140,11 +162,20 @@ def judge(case, environ):
     script = case["script_env"]
     hdr_script = case["script_hdr"]
     lines = [(n, v) for n, v in wire if n != b"SCRIPT_NAME"]
-    if hdr_script is not None:
+    hm = case.get("header_map", "drop")
+    if hdr_script is not None and (not case.get("hdr_from_untrusted") or hm == "dangerous"):
+        # (with header_map = dangerous every peer's underscore names go through, also this one: documented as unsafe)
         script = bytes.fromhex(hdr_script).decode("latin-1")
-    exp = ref_cgi.expected(case["method"].encode(), target, (1, int(case["version"][2])), lines, script)
+    exp = ref_cgi.expected(case["method"].encode(), target, (1, int(case["version"][2])), lines, script, header_map=hm)
     nj = exp["_not_judged"]
     out = []
+    if exp.get("_script_mismatch_path") is not None:
+        # the path does not start with the configured SCRIPT_NAME: gunicorn refuses such a request; if it is served all the
+        # same, nothing of the path may be lost in the split
+        got = environ.get("SCRIPT_NAME", "") + environ.get("PATH_INFO", "")
+        if got != exp["_script_mismatch_path"]:
+            out.append(("PATH_INFO", "SCRIPT_NAME %r + PATH_INFO %r" % (environ.get("SCRIPT_NAME"), environ.get("PATH_INFO")),
+                        exp["_script_mismatch_path"]))
     for key in ("REQUEST_METHOD", "RAW_URI", "SERVER_PROTOCOL", "QUERY_STRING", "PATH_INFO", "SCRIPT_NAME",
                 "CONTENT_LENGTH", "CONTENT_TYPE"):
         if key in nj:
@@ -194,9 +225,10 @@ def classify(key, case, got, want):
 
 def run_case(run, e2, harnesses, case):
     kind = case["kind"]
-    h = harnesses.get(kind)
+    hm = case.get("header_map", "drop")
+    h = harnesses.get((kind, hm))
     if h is None:
-        h = harnesses[kind] = e2.Harness(kind, {"keepalive": 0})
+        h = harnesses[(kind, hm)] = e2.Harness(kind, {"keepalive": 0, "header_map": hm})
     app = e2.AppProgram({"status": "200 OK", "mode": "list", "chunks": [], "cl": "exact", "read_input": "none"})
     script, _ = render(case)
     if case["script_env"]:
@@ -204,10 +236,14 @@ def run_case(run, e2, harnesses, case):
     else:
         os.environ.pop("SCRIPT_NAME", None)
     try:
-        out = h.connection(script, app, peer=TRUSTED if case["script_hdr"] is not None else UNTRUSTED)
+        out = h.connection(script, app, peer=TRUSTED if case["script_hdr"] is not None and not case.get("hdr_from_untrusted") else UNTRUSTED)
     finally:
         os.environ.pop("SCRIPT_NAME", None)
     verdicts = []
+    if case["script_env"] or case["script_hdr"] is not None:
+        sn = (case["script_env"] or bytes.fromhex(case["script_hdr"]).decode("latin-1")).encode("latin-1")
+        if not bytes.fromhex(case["target"]).startswith(sn):
+            run.count("script_name_not_a_prefix_cases")
     if not app.calls:
         run.count("not_accepted")
         return verdicts, out
@@ -218,6 +254,16 @@ def run_case(run, e2, harnesses, case):
         run.count("with_script_name")
     if any(len(v) > 1 for v in exp["_http"].values()):
         run.count("repeated_header_joined")
+    if case.get("hdr_from_untrusted"):
+        run.count("script_name_header_from_untrusted_peer")
+    if exp.get("_script_mismatch_path") is not None:
+        run.count("served_although_path_outside_script_name")
+    if hm == "dangerous":
+        run.count("header_map_dangerous_cases")
+        names = [bytes.fromhex(n).upper().replace(b"_", b"-") for n, _ in case["headers"]]
+        raw = [bytes.fromhex(n).upper() for n, _ in case["headers"]]
+        if any(names.count(x) > 1 and len(set(r for r in raw if r.replace(b"_", b"-") == x)) > 1 for x in names):
+            run.count("two_spellings_one_variable")
     for key, got, want in diffs:
         verdicts.append((classify(key, case, got, want), "%s = %r, the request says %r | target=%s" % (
             key, got, want, hexs(bytes.fromhex(case["target"])))))
@@ -249,7 +295,9 @@ def shard(sh):
 
 def main(tier, seed):
     run = Run(PROP, tier, seed, "exploration", RULE)
-    run.require("accepted", "form/origin", "form/absolute", "form/asterisk", "with_script_name", "repeated_header_joined")
+    run.require("accepted", "form/origin", "form/absolute", "form/asterisk", "with_script_name", "repeated_header_joined",
+                "script_name_header_from_untrusted_peer", "script_name_not_a_prefix_cases", "header_map_dangerous_cases",
+                "two_spellings_one_variable")
     q = tier == "quick"
     shards = [{"n": 1500 if q else 20000, "sub": i, "seed": seed, "tier": tier} for i in range(32 if q else 64)]
     run.assumptions = [
